@@ -1,5 +1,6 @@
 """C14 - semantic values are moved, never duplicated, leaked or reused."""
 import families, report, common_parse as cp
+from c13 import mixed
 def run(tier, seed):
     d = {g.name: g for g in families.g_dir() + families.g_err()}
     R = report.Run('C14', tier, seed); cases = []
@@ -11,6 +12,14 @@ def run(tier, seed):
         cp.STD_ASSUME + ['nonterminal values are a move-only tracked type: any copy on the path is a compile error of the unit (units compile = no copy); every move-construction / move-assignment from, and every functor argument that is, '
                          'a moved-from or never-assigned object raises a flag; default functors and _eN helpers are in the units'],
         validate_cf=False, wit_every=2, finish=False, R=R, defer=cases, variant='trk')
-    return cp.run_deferred(R, tier, cases,
+    # contextual (>>=) rules under context_parse with the move-only value type: the unit must keep compiling (build obligation only - the combination of
+    # context forwarding and tracked values does not get a verdict from CBMC, see DESIGN 10.2); a use of the deleted copy constructor is reported as a violation
+    import parsecheck, vlib
+    wd = vlib.workdir('C14', fresh=False)
+    bo = parsecheck.ParseCase(wd, mixed(d['etf']), 2, ['accept'], variant='trkctx', tag='build')
+    bo.unit.build(); R.add_unit(bo.unit, desc='build obligation: move-only values through >>= rules under context_parse')
+    R.extra['build_obligations'] = 1
+    rc = cp.run_deferred(R, tier, cases,
         'one query per (grammar, exact input length), success, failure and recovery paths alike: with move-only tracked nonterminal values, for every byte string no value is used after it has been moved from, '
         'each value reaches at most one functor, and the result equals the reference evaluation (so no value is lost or substituted)')
+    return rc
